@@ -28,7 +28,8 @@ answers are compared with
 
 A failing term is reduced to its smallest failing sub-term (per failure kind) before it is
 reported; the signature is  c12:<root operator>:<analysis>-<failure>  (child kinds are left out on
-purpose: the analyses are uniform in the children, so one root cause gives one signature).
+purpose: the analyses are uniform in the children, so one root cause gives one signature; for the
+size measures the root operator is further coarsened to its class, see sig_of).
 """
 from fractions import Fraction
 import pysmt.operators as op
@@ -40,7 +41,7 @@ from ..core.refsem import compile_term, Unconstrained, IllTyped, Unsupported, QD
 from ..core.termgen import Profile, interps, count_interps
 from ..core.termio import INT, REAL, BOOL, sort_of, mk_type
 from ..core.sig import subterms_postorder
-from ..core.sweep import sweep, run_shard as _sweep_shard  # noqa: F401
+from ..core.sweep_fast import sweep
 from ..core.runner import Result
 
 USORT = ("Sort", "S", ())
@@ -533,7 +534,33 @@ class Analyser(object):
         return f, None
 
 
+def node_class(n):
+    t = n.node_type()
+    if t == op.SYMBOL:
+        return "symbol"
+    if t in LEAF_CONST:
+        return "constant"
+    if t in QUANT:
+        return "quantifier"
+    if t == op.FUNCTION:
+        return "application"
+    if t == op.ARRAY_VALUE:
+        return "array-value"
+    if t in REL:
+        return "relation"
+    if t in CONN:
+        return "connective"
+    if t == op.ITE:
+        return "ite"
+    return "theory-op"
+
+
 def sig_of(n, kind):
+    """free/atoms/qf/types/semantic failures: the root operator of the smallest failing sub-term (the
+    oracles dispatch on it); size measures are operator-agnostic, so only the class of the root is kept
+    (a wrong measure would otherwise give one signature per operator of the alphabet)"""
+    if kind.startswith("size-"):
+        return "c12:%s:%s" % (node_class(n), kind)
     return "c12:%s:%s" % (op.op_to_str(n.node_type()), kind)
 
 
@@ -569,8 +596,10 @@ def make(env, profile, res, part):
                 case["term"] = termio.dump(sub)
                 if how is None and sub is not f:
                     case["found_in"] = termio.dump(f)
-            else:
+            elif how is not None:
                 case.update(how)
+            else:
+                case["term"] = termio.dump(f)
             res.violation(part["name"], sig_of(sub, kind),
                           "%s: %s: %s" % (part["name"], _show(sub), msg), case)
     return check
@@ -696,12 +725,14 @@ def parts(ctx):
     # ---- Boolean
     A(name="bool-d2", profile=lambda e: P.bool_profile(e, 3, consts=(True,)), depth=2, shards=16,
       mid_ops=_names_in(*B2), top_ops=_names_in(*(B2 + ("bite",))), max_new=2 if q else None)
+    if not q:
+        A(name="bool-d3", profile=lambda e: P.bool_profile(e, 2, consts=()), depth=3, shards=64,
+          mid_ops=_names_in("not", "and", "implies"), top_ops=_names_in(*(B2 + ("bite",))), max_new=1)
     # ---- arithmetic
     A(name="lia-d2", profile=lambda e: P.lia_profile(e, consts=(0, 1), big=True), depth=2, shards=16,
       mid_ops=_binary_or_less, top_ops=_binary_or_less)
     A(name="lia-ite-d2", profile=lambda e: P.lia_profile(e, consts=(0, 1), big=False, pow_=False),
-      depth=2, shards=8 if q else 32, mid_ops=_binary_or_less, top_ops=_names_in("ite"),
-      max_new=1 if q else None)
+      depth=2, shards=32, mid_ops=_binary_or_less, top_ops=_names_in("ite"))
     A(name="lra-d2", profile=lambda e: P.lra_profile(e, consts=(Fraction(0), Fraction(1, 2))), depth=2,
       shards=16, mid_ops=_binary_or_less, top_ops=_binary_or_less)
     A(name="lira-d2", profile=P.lira_profile, depth=2, shards=16, mid_ops=_binary_or_less,
@@ -711,43 +742,42 @@ def parts(ctx):
       shards=16 if q else 64, mid_ops=_binary_or_less, top_ops=_binary_or_less, max_new=1 if q else None)
     A(name="bv3-d1", profile=lambda e: P.bv_profile(e, (3,)), depth=1, shards=4)
     # ---- strings
-    A(name="str-d2", profile=lambda e: P.str_profile(e, strs=("", "ab"), ints=(0, 1)), depth=2, shards=4,
-      max_new=1)     # few shards: every shard filters the whole product space
+    A(name="str-d2", profile=lambda e: P.str_profile(e, strs=("", "ab"), ints=(0, 1)), depth=2, shards=16,
+      max_new=1)
     # ---- arrays (Boolean selects, constant arrays, stores)
     for nm, i, e_ in (("int-int", INT, INT), ("bv1-bool", ("BV", 1), BOOL), ("int-bool", INT, BOOL),
                       ("real-bv2", REAL, ("BV", 2))):
         A(name="arr-%s-d2" % nm, profile=(lambda i, e_: lambda e: P.arr_profile(e, i, e_))(i, e_),
-          depth=2, shards=4, mid_ops=_not_named("arrite"), top_ops=_not_named("store"), max_new=1)
+          depth=2, shards=8, mid_ops=_not_named("arrite"), top_ops=_not_named("store"), max_new=1)
         A(name="arr-%s-d2-tern" % nm, profile=(lambda i, e_: lambda e: P.arr_profile(e, i, e_))(i, e_),
-          depth=2, shards=2, mid_ops=_names_in("select", "store"), top_ops=_names_in("store", "arrite"),
+          depth=2, shards=4, mid_ops=_names_in("select", "store"), top_ops=_names_in("store", "arrite"),
           max_new=1)
     # ---- uninterpreted functions
     A(name="uf-d2", profile=P.uf_profile, depth=2, shards=16, dom={INT: (0, 1, 2)})
     if not q:
-        A(name="uf-d3", profile=P.uf_profile, depth=3, shards=128, dom={INT: (0, 1)},
-          mid_ops=_not_named("plus", "ite"), top_ops=_binary_or_less, max_new=1)
+        A(name="uf-d3", profile=P.uf_profile, depth=3, shards=96, dom={INT: (0, 1)},
+          mid_ops=_not_named("plus"), top_ops=_binary_or_less, max_new=1)
     # ---- quantifiers
-    A(name="quant-d2", profile=P.quant_profile, depth=2, shards=16, dom={INT: (-1, 0, 2)},
-      max_new=1 if q else None)
-    A(name="shadow-d3", profile=shadow_profile, depth=3, shards=32 if q else 128, dom={INT: (0, 1)},
+    A(name="quant-d2", profile=P.quant_profile, depth=2, shards=32, dom={INT: (-1, 0, 2)})
+    A(name="shadow-d3", profile=shadow_profile, depth=3, shards=32 if q else 64, dom={INT: (0, 1)},
       mid_ops=_names_in("and", "le", "bveq1", "forall_x", "exists_xy", "forall_a", "exists_u", "exists_ax")
       if q else _not_named("or"), max_new=1)
     if not q:
-        A(name="quant-d3", profile=P.quant_profile, depth=3, shards=128, dom={INT: (0, 1)},
+        A(name="quant-d3", profile=P.quant_profile, depth=3, shards=96, dom={INT: (0, 1)},
           mid_ops=_names_in("and", "not", "le", "bveq1", "bvult2", "forall_a", "exists_u", "forall_x",
                             "exists_ab", "forall_w", "exists_au", "forall_ux"),
           top_ops=(lambda o: _QOPS(o) or o.name in ("not", "and", "implies")), max_new=1)
     # ---- mixed shapes (own profiles)
     A(name="mix-d2", profile=mix_profile, depth=2, shards=32, dom={INT: (0, 1)},
       top_ops=_not_named("bite", "ite", "store"))
-    A(name="mix-d2-tern", profile=mix_profile, depth=2, shards=4 if q else 64, dom={INT: (0, 1)},
-      top_ops=_names_in("bite", "ite", "store"), max_new=1 if q else 2)
-    A(name="mix-d3", profile=mix_profile, depth=3, shards=32 if q else 256, dom={INT: (0, 1)},
+    A(name="mix-d2-tern", profile=mix_profile, depth=2, shards=64, dom={INT: (0, 1)},
+      top_ops=_names_in("bite", "ite", "store"), max_new=2)
+    A(name="mix-d3", profile=mix_profile, depth=3, shards=32 if q else 96, dom={INT: (0, 1)},
       mid_ops=_names_in("fb", "fi", "pr", "g", "select", "eq", "forall_x", "exists_a")
-      if q else _names_in("and", "fb", "fi", "pr", "g", "h", "select", "selectS", "eq", "eqS",
-                          "forall_x", "exists_a", "forall_s"),
+      if q else _names_in("and", "fb", "fi", "pr", "g", "h", "select", "selectS", "eq", "le", "eqS",
+                          "forall_x", "exists_a", "forall_s", "exists_y"),
       top_ops=_not_named("bite", "ite", "store"), max_new=1)
-    A(name="boolth-d3", profile=(lambda e: boolth_profile(e, wide=not q)), depth=3, shards=32 if q else 128,
+    A(name="boolth-d3", profile=(lambda e: boolth_profile(e, wide=not q)), depth=3, shards=32 if q else 96,
       mid_ops=_names_in("ite", "le", "and", "not") if q else _names_in("ite", "le", "eq", "and", "not", "iff"),
       top_ops=_names_in("not", "and", "iff", "le") if q else _not_named("eq", "ite", "bite"), max_new=1)
     return ps
@@ -812,6 +842,9 @@ def run(ctx):
                        "sorts: reported set must lie between the closure of the leaf/binder/signature/"
                        "constant-array-index sorts and the closure of all sub-term sorts",
                        "BOOL_DAG: 'theory atom' read as theory relation, or as any non-connective Boolean term",
+                       "semantic tests are run when one reference evaluation visits at most %d nodes (tree "
+                       "unfolding, a binder repeating its body per domain tuple); larger shared DAGs (chains "
+                       "deeper than about 11) get the structural comparisons only (counted)" % SEM_TREE_LIMIT,
                        "Int/Real/custom-sort quantifiers range over the explicit finite domains "
                        "{0},{0,1},{-1,0,2}; value pools as in C01 (shrunk per case to stay under the cap of "
                        "%d interpretations; shrinks are counted)" % (CAP_QUICK if ctx.quick else CAP_THOROUGH)]
@@ -844,11 +877,16 @@ def replay(rec):
             for i in range(1, case["depth"] + 1):
                 f = step(f, i)
             shown = "chain %s of depth %d" % (case["chain_name"], case["depth"])
-        an = Analyser(env, {"name": "replay", "cap": CAP_THOROUGH, "dom": {INT: (0, 1)}})
-        fails = an.verdict(f)
         kind = case.get("kind")
-        if kind in fails:
-            return False, "%s: %s: %s" % (shown, kind, fails[kind])
+        fails = {}
+        # the structural comparisons do not depend on the pools; the semantic tests are repeated over
+        # every pool used by a part
+        for dom in ({INT: (0, 1)}, SMALL_DOM, {INT: (0, 1, 2)}, None):
+            fails = Analyser(env, {"name": "replay", "cap": CAP_THOROUGH, "dom": dom}).verdict(f)
+            if kind in fails:
+                return False, "%s: %s: %s" % (shown, kind, fails[kind])
+            if fails:
+                break
         if fails:
             k = sorted(fails)[0]
             return False, "%s: %s: %s" % (shown, k, fails[k])
